@@ -599,6 +599,9 @@ fn deliver_signals(tid: Tid) {
                     m |= 1u64 << (sig as u64 & 63);
                 }
                 st.threads[tid].sigmask = m;
+                if std::env::var("VSIM_TRACE_MASK").is_ok() {
+                    eprintln!("[mask] t{tid} handler-entry sig {sig} mask {m:#x} saved {saved:#x} at {}us", (st.now_ns % 1_000_000_000_000) / 1000);
+                }
             }
             (sig, h, saved)
         };
@@ -610,11 +613,20 @@ fn deliver_signals(tid: Tid) {
         if h.is_some() {
             // sigreturn: the mask saved in the signal frame goes to whichever thread executes the
             // return (a handler that switched coroutines may come back on another thread, much later)
-            if let Some(cur) = TID.try_with(Cell::get).ok().flatten() {
+            let cur = TID.try_with(Cell::get).ok().flatten();
+            if let Some(cur) = cur {
                 let mut st = lock();
                 if st.active && cur < st.threads.len() {
                     st.threads[cur].sigmask = saved;
+                    if std::env::var("VSIM_TRACE_MASK").is_ok() {
+                        eprintln!("[mask] t{cur} handler-return (delivered on t{tid}) restore {saved:#x} at {}us", (st.now_ns % 1_000_000_000_000) / 1000);
+                    }
                 }
+            }
+            if cur != Some(tid) {
+                // the handler came back on another thread (it had switched coroutines): this is no
+                // longer `tid`'s delivery loop
+                return;
             }
         }
     }
@@ -629,6 +641,9 @@ pub fn sigmask_get() -> u64 {
 
 pub fn sigmask_set(mask: u64) {
     let Some(tid) = TID.try_with(Cell::get).ok().flatten() else { return };
+    if std::env::var("VSIM_TRACE_MASK").is_ok() {
+        eprintln!("[mask] t{tid} set {mask:#x} at {}us", (now_ns() % 1_000_000_000_000) / 1000);
+    }
     let mut st = lock();
     if let Some(t) = st.threads.get_mut(tid) {
         t.sigmask = mask;
